@@ -74,6 +74,15 @@ def build_case(cs, profile):
     if spec['na'] == 2 and okw.get('twopl') is None and rng.random() < 0.25:
         okw['twopl'] = False      # HA-style one-sided run
     opts = sp.make_opts(rng, spec, **okw)
+    if profile.get('bounds_stress'):
+        name = rng.choice(['mincost', 'minsqcost', 'mincostlsb', 'lsb', 'lmb', 'minsqcost', 'mincost'])
+        ex_ = [] if name in ('lsb', 'lmb') else [rng.choice([0, 1, 2]), rng.choice([1, 1, 2, 3, 10])]
+        opts['crits'] = [['maxsize', 1, []], [name, rng.randint(2, 9), ex_]]
+    if profile.get('big_first'):
+        name = rng.choice(['mincost', 'minsqcost', 'mincostlsb'])
+        rest = [c for c in opts['crits'] if c[0] != name][:2]
+        opts['crits'] = [[name, 1, [rng.choice([10000, 25000, 123457]), rng.choice([0, 1, 10000])]]] + [
+            [c[0], i + 2, c[2]] for i, c in enumerate(rest)]
     if profile.get('force_extras') and opts['crits']:
         opts['crits'][0][2] = list(profile['force_extras'])
     return rng, spec, opts
